@@ -517,3 +517,37 @@ canary('c01-map-missing-value', 'C01', ENCF, """        encode_term_impl(buf, ke
 canary('c01-numfree-field', 'C01', ENCF, "    temp_buf.put_u32(num_free);\n", "    let _ = num_free;\n    temp_buf.put_u32(fun.num_free);\n", 'WIRE:')
 canary('c01-ref-count-u8', 'C01', ENCF, "        buf.put_u8(NEWER_REFERENCE_EXT);\n        buf.put_u16(len);", "        buf.put_u8(NEWER_REFERENCE_EXT);\n        buf.put_u8(len as u8);", 'WIRE:')
 canary('c01-nil-as-string-variant', 'C01', ENCF, "        OwnedTerm::String(s) => encode_string(buf, s),", "        OwnedTerm::String(s) => encode_atom_impl(buf, &Atom::new(s), cache),", 'FLOW:')
+
+# ---- C10 ----
+TYP = 'crates/erltf/src/types.rs'
+BOR = 'crates/erltf/src/borrowed.rs'
+canary('c10-hash-raw', 'C10', TYP, """        self.node.hash(state);
+        self.id.hash(state);
+        self.serial.hash(state);
+        self.creation.hash(state);""", """        self.node.hash(state);
+        self.id.hash(state);
+        self.serial.hash(state);
+        self.creation.hash(state);
+        self.local_ext_bytes.hash(state);""", 'uses-raw-bytes')
+canary('c10-to-owned-rebuild', 'C10', BOR, "BorrowedTerm::Pid(p) => OwnedTerm::Pid(p.clone()),", "BorrowedTerm::Pid(p) => OwnedTerm::Pid(ExternalPid::new(p.node.clone(), p.id, p.serial, p.creation)),", 'rebuilds-Pid')
+canary('c10-encoder-ignores-raw', 'C10', ENCF, """    if let Some(ref local_ext_bytes) = port.local_ext_bytes {
+        buf.put_u8(LOCAL_EXT);
+        buf.put_slice(local_ext_bytes);
+    } else {
+        buf.put_u8(V4_PORT_EXT);""", """    if port.local_ext_bytes.is_some() && port.id == u64::MAX {
+        buf.put_u8(LOCAL_EXT);
+    } else {
+        buf.put_u8(V4_PORT_EXT);""", 'WIRE:')
+canary('c10-capture-short', 'C10', DEC, "let local_ext_bytes_len = 8 + nested_len;", "let local_ext_bytes_len = nested_len;", 'capture')
+canary('c10-port-eq-ignores-creation', 'C10', TYP, "impl PartialEq for ExternalPort {\n    fn eq(&self, other: &Self) -> bool {\n        self.node == other.node && self.id == other.id && self.creation == other.creation", "impl PartialEq for ExternalPort {\n    fn eq(&self, other: &Self) -> bool {\n        self.node == other.node && self.id == other.id", 'FIELDSET:')
+canary('c10-reference-not-captured', 'C10', DEC, """        OwnedTerm::Reference(reference) => {
+            OwnedTerm::Reference(ExternalReference::with_local_ext_bytes(
+                reference.node,
+                reference.creation,
+                reference.ids,
+                local_ext_bytes,
+            ))
+        }""", """        OwnedTerm::Reference(reference) => {
+            let _ = &local_ext_bytes;
+            OwnedTerm::Reference(reference)
+        }""", 'no-capture')
